@@ -276,4 +276,28 @@ def features(ops: list, root: int, nl: int) -> list:
             out.add('ConditionalSum.same_condition_node_twice')
         if n['op'] == 'bioLinearUtility' and len(set(k[0::2])) < len(k[0::2]):
             out.add('bioLinearUtility.same_beta_twice')
+        if n['op'] == 'PowerConstant' and k[0] > nl:
+            out.add('PowerConstant.over_operator_child')
+    # a node used both in a value-only slot (choice / availability / key / condition) of some
+    # operator and in a differentiated slot somewhere in the formula
+    value_only, other = set(), set()
+    for i in reach(ops, root, nl):
+        if i <= nl:
+            continue
+        n = ops[i - nl - 1]
+        k = n['kids']
+        if n['op'] == '_bioLogLogit':
+            vo = {0} | {2 + 2 * j for j in range(len(n['keys']))}
+        elif n['op'] == '_bioLogLogitFullChoiceSet':
+            vo = {0}
+        elif n['op'] == 'Elem':
+            vo = {0}
+        elif n['op'] == 'ConditionalSum':
+            vo = set(range(0, len(k), 2))
+        else:
+            vo = set()
+        for slot, kid in enumerate(k):
+            (value_only if slot in vo else other).add(kid)
+    if value_only & other:
+        out.add('node_shared_between_value_only_and_differentiated_slot')
     return sorted(out)
